@@ -10,6 +10,7 @@ unsat is sound); a sat answer of the abstraction is confirmed by searching a con
 Rest clause: init(sys, q, 0) o step without gravity / control / springs stays exactly at rest (Tier B angles, symbolic positions).
 """
 import itertools
+import math
 import random
 from fractions import Fraction as F
 
@@ -78,6 +79,7 @@ def run(ck, a):
 
   for wi, words in enumerate(word_sets):
     spec = models.tree_model(rng, words, free_root=True, ortho=True, limits_p=0.7, actuators=min(2, len(words)), joint_props=True)
+    spec['custom'] = ['<numeric name="ang_damping" data="-0.8"/>']      # global ANGULAR damping may be on (the property fixes only vel_damping = 0): it must not touch linear momentum
     xml = models.to_xml(spec)
     sys_ = mjcf.loads(xml)
     masses = [F(repr(float(m))) for m in np.asarray(sys_.link.inertia.mass)]
@@ -124,7 +126,7 @@ def run(ck, a):
       return {'type': kind, 'size': (0.1,) if kind == 'sphere' else (0.08, 0.2), 'pos': (0.05, 0, 0.02), 'quat': (1, 0, 0, 0), 'contype': 1, 'conaffinity': 1}
     spec = {'bodies': [{'name': 'b%d' % i, 'parent': -1, 'pos': (0.5 * i, 0, 1), 'quat': (1, 0, 0, 0), 'joints': [{'name': 'f%d' % i, 'type': 'free'}], 'geoms': [geom(k)],
                         'mass': [1.5, 0.7][i], 'inertia': (0.2, 0.25, 0.3), 'ipos': (0.02, 0, 0)} for i, k in enumerate((ka, kb))], 'actuators': [],
-            'custom': ['<tuple name="elasticity"><element objtype="geom" objname="g0" prm="0.5"/></tuple>'] if False else None}
+            'custom': ['<numeric name="ang_damping" data="-0.8"/>']}
     xml = models.to_xml(spec)
     sys_ = mjcf.loads(xml)
     masses = [F(repr(float(m))) for m in np.asarray(sys_.link.inertia.mass)]
@@ -170,12 +172,23 @@ def run(ck, a):
 
   # ---- rest clause (Tier B): a system at rest, without gravity / control / springs, stays at rest
   from checks.c01 import half_point, TS
-  rest_models = [(['h'], True), (['s', 'h'], False), (['hs'], True)] if not thorough else [(['h'], True), (['s', 'h'], False), (['hs'], True), (['hh'], False), (['h', 'sh'], True)]
+  rest_models = [(['h'], True), (['s', 'h'], False), (['hs'], True), (['hhh'], True)] if not thorough else [(['h'], True), (['s', 'h'], False), (['hs'], True), (['hhh'], True), (['hh'], False), (['h', 'sh'], True), (['hhh', 'h'], False)]
+  rng3 = random.Random(404 + ck.seed)
   for words, free_root in rest_models:
     spec = models.tree_model(rng, words, free_root=free_root, root_word=None if free_root else 'h', ortho=True, limits_p=1.0, actuators=0, joint_props=False)
     for b in spec['bodies']:
+      hinges = [j for j in b['joints'] if j['type'] == 'hinge']
+      if len(hinges) == 3:
+        # a LEFT-handed axis triple (x, z, y): the third Euler angle's sign depends on the stack's parity
+        for j, ax in zip(hinges, [(1, 0, 0), (0, 0, 1), (0, 1, 0)] if rng3.random() < 0.75 else [(0, 1, 0), (0, 0, 1), (1, 0, 0)]):
+          j['axis'] = ax
       for j in b['joints']:
-        if j.get('range') is not None:
+        if j['type'] == 'hinge':
+          # the configuration is chosen first, then an ASYMMETRIC range strictly around it (the mirrored angle -a is outside the range)
+          j['_t'] = rng3.choice([t for t in TS if 0 < abs(t) <= F(1, 4)])
+          a_ = 4 * math.atan(float(j['_t']))
+          j['range'] = (round(a_ - 0.25, 3), round(a_ + 1.0, 3)) if rng3.random() < 0.5 else (round(a_ - 1.0, 3), round(a_ + 0.25, 3))
+        elif j.get('range') is not None:
           j['range'] = (-1.5, 1.5)
     spec['gravity'] = (0, 0, 0)
     xml = models.to_xml(spec)
@@ -183,7 +196,8 @@ def run(ck, a):
     ex = models.exact_params(spec)
     keys = sorted(ex)
     for pname, mod in list(pipes.items()):      # the generalized rest clause needs a symbolic 7x7 solve: not within the tiers' time caps (stated in bounds)
-      ctx = core.Ctx(fold=True)
+      hhh = any('hhh' in w for w in words)
+      ctx = core.Ctx(fold=not hhh)      # 3-hinge stacks: no predicate depends on a symbolic input in a way worth folding, and the in-process lemma solver stalls on their terms
       ctx.pair_cos_min = F(27, 50)
       ctx.lemma_timeout = 250
       q = []
@@ -195,11 +209,16 @@ def run(ck, a):
           else:
             v = z3.Real('q%d' % len(q))
             if j['type'] == 'hinge':
-              ctx.angle_points[v.decl().name()] = half_point(rng.choice([t for t in TS if abs(t) <= F(1, 4)]))
+              ctx.angle_points[v.decl().name()] = half_point(j['_t'])
             else:
               pre += [v >= -1, v <= 1]
             q.append(v)
       ctx.assume = list(pre)
+      qtpl = [None if not core.isc(c_) else float(c_) for c_ in q]
+      for i_, c_ in enumerate(q):
+        if not core.isc(c_) and str(c_) in ctx.angle_points:
+          sh_, ch_ = ctx.angle_points[str(c_)]
+          qtpl[i_] = ('hinge', 2.0 * math.atan2(float(sh_), float(ch_)))
       qa = core.obj_array(q)
       pars = {kx: core.consts(vx) for kx, vx in ex.items()}
       def fr_(q, *ps):
@@ -224,8 +243,11 @@ def run(ck, a):
       except NotImplementedError as e3:
         ck.notes.append('rest clause %s %s: %s' % (pname, words, e3))
         continue
-      ck.add(Ob('rest/%s/%s%s' % (pname, 'free+' if free_root else 'world-h+', '.'.join(words)), [frz.formula(s_, _top=False) for s_ in ctx.side] + pre, goal, timeout=120,
-                core=(pname != 'generalized'), meta={'tag': 'rest', 'pipe': pname, 'xml': xml,
+      ck.add(Ob('rest/%s/%s%s' % (pname, 'free+' if free_root else 'world-h+', '.'.join(words)), [frz.formula(s_, _top=False) for s_ in ctx.side] + pre, goal, timeout=20 if (pname == 'positional' and hhh) else 120,
+                core=(pname != 'generalized' and not (pname == 'positional' and hhh)), meta={'tag': 'rest', 'pipe': pname, 'xml': xml, 'qtpl': qtpl,
+                      # positional 3-dof limits go through atan2 -> clip -> sin/cos of a non-rational angle: "exactly zero" is not an algebraic identity there;
+                      # the obligation is extended and backed by the concrete witness search on the real code
+                      'extended_witness': ('rest/%s/%s' % (pname, '.'.join(words))) if (pname == 'positional' and hhh) else None,
                       'finding_key': 'rest clause on a link whose stack places a slide after a hinge (upstream limitation, see C08)' if any('hs' in w for w in words) else None}))
 
   # ---- replay / witness search on the real code
@@ -236,10 +258,15 @@ def run(ck, a):
       xml = ob.meta['xml']
       s = mjcf.loads(xml)
       r = np.random.RandomState(0)
-      for _ in range(5):
+      for trial in range(5):
         q = np.array(s.init_q)
-        for i in range(len(q)):
-          q[i] = q[i] + (r.uniform(-0.5, 0.5) if (s.q_size() == len(q) and not (s.link_types[0] == 'f' and 3 <= i < 7)) else 0)
+        for i, c_ in enumerate(ob.meta['qtpl']):
+          if c_ is None:
+            q[i] = q[i] + r.uniform(-0.5, 0.5)                      # root position / slide coordinate
+          elif isinstance(c_, tuple):
+            q[i] = c_[1] + (0 if trial == 0 else r.uniform(-0.2, 0.2))    # hinge: the encoded point, then nearby points inside the (asymmetric) range
+          else:
+            q[i] = c_
         st = mod.init(s, jp.array(q), jp.zeros(s.qd_size()))
         o = mod.step(s, st, jp.zeros(s.act_size()))
         if float(jp.abs(o.qd).max()) > 1e-9:
